@@ -126,10 +126,11 @@ def seqOp (sc : Sc) (st : St) (i : Nat) (op : Op) : St :=
   | .R w k =>
     let s1 := openR hashId st.s w k
     if s1.nextR > st.s.nextR then
-      -- rock: the disker writes asynchronously; a write that finds the slot still locked by the previous write of the key fails and
-      -- releases the entry everywhere, so after two writes of a key a predicted hit may also be a miss
+      -- rock: the disker writes asynchronously; a write that finds its slot locked (by the previous write of the key, or by a
+      -- colliding key of a concurrent scenario) fails and releases the entry in every store, so in the rock instance a predicted
+      -- hit may also be a miss; the memory-only instance keeps the exact prediction
       let rdBig := (st.bigs.any (fun p => p.1 == k && p.2 == (st.s.anchors k).ver)) ||
-                   (sc.inst == "r" && (st.writes.filter (· == k)).length ≥ 2) || st.unc.contains k
+                   sc.inst == "r" || st.unc.contains k
       finishReader { st with s := s1 } i st.s.nextR rdBig
     else missFetch sc st i w k
   | .P _ k => doPurge st i k
